@@ -31,10 +31,10 @@ MATCHERS = {}          # id(Matcher) -> (ra, dec) copies taken at construction
 
 
 def cases(seed, tier):
-    n = 208 if tier == "quick" else 4160
+    n = 224 if tier == "quick" else 4480
     rng = np.random.default_rng([seed, 12])
     fams = ["uniform", "cap", "northpole", "southpole", "seam", "octant", "duplicates", "perturbed", "tiny-radius", "perturbed",
-            "tiny-radius", "edge-straddle", "repeat-radius"]
+            "tiny-radius", "edge-straddle", "repeat-radius", "antipodal"]
     for i in range(n):
         yield {"family": fams[i % len(fams)], "sub": int(rng.integers(0, 2**31))}
 
@@ -187,6 +187,19 @@ def make_sets(rng, fam):
     """-> ra1, dec1, ra2, dec2, radius (array, size 1 or n1), description"""
     n1 = int(rng.choice([1, 2, 3, 20, 80, 200]))
     n2 = int(rng.choice([1, 5, 40, 150, 400]))
+    if fam == "antipodal":
+        # second set = the antipodes of the first set, displaced by 1e-9 .. 1e-2 deg: separations just short of 180 deg, with
+        # one radius of 180 deg or a per-point radius a few 1e-7 deg either side of the true separation
+        n1 = int(rng.choice([1, 3, 12, 30]))
+        ra1, dec1 = H.uniform(rng, n1)
+        if rng.random() < .4:
+            dec1[:] = 0.0                                   # equator pairs
+        ara, adec = (ra1 + 180.0) % 360.0, -dec1
+        ra2, dec2 = H.offset(rng, ara, adec, 10.0 ** rng.uniform(-9, -2, size=n1))
+        if rng.random() < .5:
+            return ra1, dec1, ra2, dec2, np.array([180.0])
+        sd = np.array([float(H.sep_matrix(ra1[i:i + 1], dec1[i:i + 1], ra2[i:i + 1], dec2[i:i + 1])[0, 0]) for i in range(n1)])
+        return ra1, dec1, ra2, dec2, np.minimum(sd + rng.choice([-3e-7, 3e-7, -1e-8, 1e-8], size=n1), 180.0)
     if fam == "uniform":
         ra1, dec1 = H.uniform(rng, n1)
         ra2, dec2 = H.uniform(rng, n2)
